@@ -124,7 +124,11 @@ func c13Body(c c13Case, o *c13Obs) {
 		}
 	}
 	var causeAt time.Duration
+	windowClosed := false
 	cause := func() {
+		if windowClosed {
+			return // the position lies beyond the observation window: nothing is injected, nothing is judged
+		}
 		o.causeFired = true
 		causeAt = vsched.NowOffset()
 		switch c.Cause {
@@ -166,6 +170,7 @@ func c13Body(c c13Case, o *c13Obs) {
 	time.Sleep(60 * time.Second)
 	vsched.Settle()
 	vsched.MarkSpanEnd()
+	windowClosed = true
 	if o.causeFired && vsched.NowOffset()-causeAt < 60*time.Second {
 		// the cause fired late in the window (idle positions are time jumps): the settling time of
 		// 60 s counts from the cause
@@ -294,8 +299,12 @@ func runC13(R *vlib.Out) {
 						maxPos = vsched.LastArmSpan
 						_ = r
 					}
-					if maxPos > 400 {
-						maxPos = 400
+					capPos := 400
+					if thorough {
+						capPos = 1500
+					}
+					if maxPos > capPos {
+						maxPos = capPos
 					}
 					stride := 1
 					if !thorough && maxPos > 120 {
@@ -338,13 +347,46 @@ func runC13(R *vlib.Out) {
 		// delay-bounded deviations on top of selected positions
 		bound := 1
 		var scs []c13Case
-		for _, role := range []string{"ini", "acc"} {
-			for _, pt := range []string{"inbound2", "sends2", "logged"} {
-				for _, cause := range []string{"hstop", "eof", "close", "writeerr"} {
-					for _, pos := range []int{0, 3, 9} {
-						scs = append(scs, c13Case{Role: role, Buf: 0, Point: pt, Cause: cause, Pos: pos})
+		if thorough {
+			for _, role := range []string{"ini", "acc"} {
+				for _, buf := range []int{0, 1} {
+					for _, pt := range points {
+						for _, cause := range causes {
+							for _, pos := range []int{0, 1, 2, 3, 5, 8, 13, 21, 34} {
+								scs = append(scs, c13Case{Role: role, Buf: buf, Point: pt, Cause: cause, Pos: pos})
+							}
+						}
 					}
 				}
+			}
+		} else {
+			for _, role := range []string{"ini", "acc"} {
+				for _, pt := range []string{"inbound2", "sends2", "logged"} {
+					for _, cause := range []string{"hstop", "eof", "close", "writeerr"} {
+						for _, pos := range []int{0, 3, 9} {
+							scs = append(scs, c13Case{Role: role, Buf: 0, Point: pt, Cause: cause, Pos: pos})
+						}
+					}
+				}
+			}
+		}
+		if thorough {
+			// delay bound 2 on the cells with hand-offs in flight
+			var deep []c13Case
+			for _, role := range []string{"ini", "acc"} {
+				for _, pt := range []string{"inbound2", "sends2"} {
+					for _, cause := range []string{"hstop", "eof", "close"} {
+						deep = append(deep, c13Case{Role: role, Buf: 0, Point: pt, Cause: cause, Pos: 0})
+					}
+				}
+			}
+			for i, c := range deep {
+				if vlib.Expired() {
+					R.Cap("deadline")
+					break
+				}
+				scenarioBudget = vlib.Remaining() / time.Duration(2*(len(deep)-i)) // leave half for the bound-1 sweep
+				exploreSched(R, c13ScenarioOf(c, 2))
 			}
 		}
 		for i, c := range scs {
@@ -355,7 +397,7 @@ func runC13(R *vlib.Out) {
 				R.Cap("deadline")
 				break
 			}
-			scenarioBudget = vlib.Remaining() / time.Duration(len(scs)-i)
+			scenarioBudget = 8 * vlib.Remaining() / time.Duration(len(scs)-i) // most cells finish far below their share
 			exploreSched(R, c13ScenarioOf(c, bound))
 		}
 	}
